@@ -87,6 +87,8 @@ func (w *world) startNode(newNode bool) (outcome string) {
 	w.node = hk8.NewNode(cfg, rootFunc, w.ldb, w.fs, func(ss hk8.ISnapshotter) *hk8.StateMachine {
 		return hk8.NewStateMachine(msm, ss, cfg, proxy, w.fs)
 	})
+	w.proxy = proxy
+	w.dead = false
 	outcome = "ok"
 	if p := vh.Catch(func() {
 		if _, err := w.node.ReplayLog(); err != nil {
@@ -99,17 +101,71 @@ func (w *world) startNode(newNode bool) (outcome string) {
 			return
 		}
 		w.node.InitialRecoverDone(idx)
+		if idx == 0 {
+			// a replica without a snapshot replays its log: the bootstrap membership
+			// entry at index 1 (no state machine update, nothing recorded)
+			cc := pb.ConfigChange{Type: pb.AddNode, ReplicaID: replicaID, Address: "a1", Initialize: true}
+			w.deliver([]pb.Entry{{Type: pb.ConfigChangeEntry, Index: 1, Term: 1, Cmd: pb.MustMarshal(&cc)}})
+		}
 	}); p != "" {
 		w.lastPanic = p
+		w.dead = true
 		return "panic"
 	}
+	if outcome != "ok" {
+		w.dead = true
+	}
 	return outcome
+}
+
+// deliver hands committed entries to the apply path (rsm.StateMachine.Handle).
+func (w *world) deliver(ents []pb.Entry) {
+	w.node.SM().TaskQ().Add(hk8.Task{Entries: ents})
+	if _, err := w.node.SM().Handle(make([]hk8.Task, 0, 4), make([]sm.Entry, 0, 4)); err != nil {
+		panic(err)
+	}
+}
+
+// applyEntries applies state machine updates up to index k (volatile until Sync).
+func (w *world) applyEntries(k uint64) string {
+	if w.node == nil || w.dead {
+		return "skip"
+	}
+	ap := w.appliedIndex()
+	if k <= ap {
+		return "skip"
+	}
+	var ents []pb.Entry
+	for i := ap + 1; i <= k; i++ {
+		ents = append(ents, pb.Entry{Type: pb.ApplicationEntry, Index: i, Term: 1, Key: i, ClientID: 77, Cmd: []byte{1}})
+	}
+	w.deliver(ents)
+	return "ok"
+}
+
+// saveOnDisk is node.doSave for a regular snapshot request.
+func (w *world) saveOnDisk() string {
+	if w.node == nil || w.dead {
+		return "skip"
+	}
+	ap := w.appliedIndex()
+	if ap == 0 || ap <= w.rec || ap != w.disk.vol {
+		return "skip"
+	}
+	idx, err := w.node.DoSave(hk8.SSRequest{})
+	switch {
+	case err != nil:
+		return "err"
+	case idx == 0:
+		return "ood"
+	}
+	return "ok"
 }
 
 // recoverLive is what the apply worker does with the snapshot the step worker
 // pushed (node.processSnapshot -> Task{Recover} -> node.recover).
 func (w *world) recoverLive(i uint64) string {
-	if w.node == nil || i == 0 || w.rec != i || w.disk.vol >= i ||
+	if w.node == nil || w.dead || i == 0 || w.rec != i || w.disk.vol >= i || w.appliedIndex() >= i ||
 		snapState(w.mem, w.snap.VerifFilePath(i)) != "full" {
 		return "skip"
 	}
